@@ -120,6 +120,7 @@ func runC06(c *Ctx) {
 	c06SlowWrites(c)
 	// volume: duplicated replies and reply-vs-cancel / reply-vs-T3 ties, unique token per transaction (c06_stress.go)
 	c06Stress(c)
+	c06Deadline(c) // caller context with a deadline shorter than T3 (c06_deadline.go)
 	// directed: one sender per peer behaviour
 	for pk := 0; pk < pkNone; pk++ {
 		if pk == pkCtrl {
